@@ -15,10 +15,9 @@ Where the state goes, construct by construct (line numbers: /repo HEAD):
   * leading `/`, `//`: saves `item`, moves it to the document / root, runs the operand on the same
     context, writes `item` back
   * `(`…`)`: passes the context through;  `count`: runs its argument on the same context
-  * `|`, comparisons (`atomization`), `and`, `or`: every operand on its own `copy(context)`
-  * `not(…)`: runs its argument on the same context and `boolean_value` abandons the generator at the
-    first node — the state left behind is arbitrary (`J`); every caller of `not` in the fragment
-    hands it a copy
+  * `|`, comparisons (`atomization`), `and`, `or`, `not`: every operand on its own `copy(context)`
+  * `not(…)`: its argument on `copy(context)` (`boolean_value` abandons that generator at the first
+    node; since fix 1b26724 nothing of it reaches the caller)
 `EPV/Lemmas/AxesEvalState.lean` proves that the values are those of the pure evaluator `eval` and that
 every path-valued expression gives the caller's context back unchanged (except a trailing namespace
 step, which leaves `item` on the last selected namespace node).
@@ -77,58 +76,60 @@ def valNodes : Option (List Nat) → Val
   | some rs => .nodes (docOrder rs)
   | none => .err
 
-def evalS (J : Expr → SCtx → SCtx) (m : Mode) (a : Arr) : Expr → SCtx → Val × SCtx
+def evalS (m : Mode) (a : Arr) : Expr → SCtx → Val × SCtx
   | .step ax t ab, c => let r := stepS m a ax t ab c; (.nodes r.1, r.2)
   | .ctxItem, c => (.nodes (iterSelf c.item), c.setIA (exec (prog m a .self c.ia) c.ia).2)
   | .parentAbbr, c => (.nodes (iterParent m a c.item), c.setIA (exec (prog m a .parent c.ia) c.ia).2)
   | .pred e p, c =>
-    match (evalS J m a e (swfEntry e c)).1 with
+    match (evalS m a e (swfEntry e c)).1 with
     | .nodes l =>
       let foc := predFocus e l
-      (ofOpt (filterFlags foc (foc.map fun f' => keep (evalS J m a p (SCtx.ofFocus f')).1 f')), c)
+      (ofOpt (filterFlags foc (foc.map fun f' => keep (evalS m a p (SCtx.ofFocus f')).1 f')), c)
     | _ => (.err, c)
   | .slash l r, c =>
-    match (evalS J m a l (swfEntry l c)).1 with
+    match (evalS m a l (swfEntry l c)).1 with
     | .nodes ls =>
-      let res := loopS (evalS J m a r) (selectWithFocus l ls) { c with axis := none }
+      let res := loopS (evalS m a r) (selectWithFocus l ls) { c with axis := none }
       (valNodes (collect res.1), c)
     | _ => (.err, c)
   | .dslash l r, c =>
-    match (evalS J m a l (swfEntry l c)).1 with
+    match (evalS m a l (swfEntry l c)).1 with
     | .nodes ls =>
       let foc2 := (selectWithFocus l ls).flatMap fun f' =>
         (iterDescendants m a true f'.item).map fun d => { f' with item := d }
-      let res := loopS (evalS J m a r) foc2 { c with axis := none }
+      let res := loopS (evalS m a r) foc2 { c with axis := none }
       (valNodes (collect res.1), c)
     | _ => (.err, c)
   | .rootOnly, c => (.nodes (if m == .doc then [0] else []), c)
   | .root e, c =>
-    let r := evalS J m a e { c with item := 0 }
+    let r := evalS m a e { c with item := 0 }
     (r.1, { r.2 with item := c.item })
   | .droot e, c =>
     let foc := (iterDescendants m a true 0).map fun d => (⟨d, c.pos, c.size⟩ : Focus)
-    let res := loopS (evalS J m a e) foc { c with item := 0, axis := none }
+    let res := loopS (evalS m a e) foc { c with item := 0, axis := none }
     -- `iter_descendants` writes (item, axis) back, then `context.item = item`
     (valNodes (collect res.1), { res.2 with item := c.item, axis := c.axis })
-  | .paren e, c => evalS J m a e c
+  | .paren e, c => evalS m a e c
   | .union l r, c =>
-    (match (evalS J m a l c.copy).1, (evalS J m a r c.copy).1 with
+    (match (evalS m a l c.copy).1, (evalS m a r c.copy).1 with
      | .nodes x, .nodes y => .nodes (docOrder (x ++ y))
      | _, _ => .err, c)
   | .count e, c =>
-    let r := evalS J m a e c
+    let r := evalS m a e c
     (match r.1 with | .nodes l => .num l.length | _ => .err, r.2)
   | .num k, c => (.num k, c)
+  | .lit neg t, c => (.dec neg t, c)
   | .position, c => (.num c.pos, c)
   | .last, c => (.num c.size, c)
   | .cmp op l r, c =>
-    (match (evalS J m a l c.copy).1, (evalS J m a r c.copy).1 with
+    (match (evalS m a l c.copy).1, (evalS m a r c.copy).1 with
      | .num x, .num y => .bool (cmpNat op x y)
      | _, _ => .err, c)
-  | .and l r, c => (andVal' (evalS J m a l c.copy).1 (evalS J m a r c.copy).1, c)
-  | .or l r, c => (orVal' (evalS J m a l c.copy).1 (evalS J m a r c.copy).1, c)
+  | .and l r, c => (andVal' (evalS m a l c.copy).1 (evalS m a r c.copy).1, c)
+  | .or l r, c => (orVal' (evalS m a l c.copy).1 (evalS m a r c.copy).1, c)
   | .not e, c =>
-    (match ebv (evalS J m a e c).1 with | some b => .bool (!b) | none => .err, J e c)
+    -- `evaluate__not`: `not self.boolean_value(self[0].select(copy(context)))`
+    (match ebv (evalS m a e c.copy).1 with | some b => .bool (!b) | none => .err, c)
 where
   andVal' (x y : Val) : Val :=
     match ebv x with
